@@ -32,6 +32,93 @@ def load_known():
         return None
 
 
+def load_known_full():
+    try:
+        return json.load(open(KNOWN))
+    except Exception:
+        return None
+
+
+def _sig(j):
+    return json.dumps([j.get("impl_self"), j.get("impl_trait"), j.get("params"), j.get("ret"), bool(j.get("nameable"))])
+
+
+def undo_renames(facts, known_full):
+    """a private function or field that merely changed its name is given its old name back, so that rules which name it
+    keep working: (a) an unknown function whose owner type, parameter types and return type equal those of exactly one
+    known function that is now missing (and no other unknown function fits); (b) a field whose position and type are
+    unchanged in a type that still has the same number of fields.  Returns (facts, report)."""
+    report = {"functions": {}, "fields": {}}
+    if not known_full or "signatures" not in known_full:
+        return facts, report
+    names = {j["name"] for j in facts["fns"]}
+    known = set(known_full["functions"])
+    sigs = known_full["signatures"]
+    missing_by_sig = {}
+    for k, sg in sigs.items():
+        if k not in names:
+            missing_by_sig.setdefault(sg, []).append(k)
+    unknown_by_sig = {}
+    for j in facts["fns"]:
+        if j["name"] not in known and not j.get("closure") and "::{closure" not in j["name"]:
+            unknown_by_sig.setdefault(_sig(j), []).append(j["name"])
+    ren = {}
+    for sg, us in unknown_by_sig.items():
+        ks = missing_by_sig.get(sg, [])
+        if len(us) == 1 and len(ks) == 1 and us[0].rsplit("::", 1)[0] == ks[0].rsplit("::", 1)[0]:
+            ren[us[0]] = ks[0]
+    if ren:
+        import re
+        text = json.dumps(facts)
+        for u, k in sorted(ren.items(), key=lambda x: -len(x[0])):
+            text = re.sub(re.escape(json.dumps(u)[1:-1]) + r"(?![A-Za-z0-9_])", json.dumps(k)[1:-1].replace("\\", "\\\\"), text)
+        facts = json.loads(text)
+        report["functions"] = ren
+    # fields
+    kadts = known_full.get("adts", {})
+    fren = {}
+    for a in facts["adts"]:
+        layouts = kadts.get(a["name"]) or []
+        # the layout of the build configuration at hand: same variants, same number of fields in each
+        ka = None
+        for lay in layouts:
+            if len(lay) == len(a["variants"]) and all(lay[i][0] == v["name"] and len(lay[i][1]) == len(v["fields"]) for i, v in enumerate(a["variants"])):
+                ka = lay
+                break
+        if ka is None:
+            continue
+        for vi, v in enumerate(a["variants"]):
+            kv = ka[vi]
+            for fi, fld in enumerate(v["fields"]):
+                kname, kty = kv[1][fi]
+                if fld["name"] != kname and fld["ty"] == kty and kname not in [x["name"] for x in v["fields"]]:
+                    owner = a["name"] if a["kind"] == "struct" else a["name"] + "::" + v["name"]
+                    fren[(owner, fi, fld["name"])] = kname
+                    fld["name"] = kname
+    if fren:
+        def walk(j):
+            if isinstance(j, dict):
+                pr = j.get("proj")
+                if isinstance(pr, list):
+                    for pe in pr:
+                        if pe and pe[0] == "field" and len(pe) >= 5 and (pe[4], pe[1], pe[2]) in fren:
+                            pe[2] = fren[(pe[4], pe[1], pe[2])]
+                if j.get("k") == "aggregate" and isinstance(j.get("fields"), list) and j.get("adt"):
+                    owner = j["adt"] if j.get("vname") in (None, j["adt"].rsplit("::", 1)[-1]) else "%s::%s" % (j["adt"], j["vname"])
+                    for fi, fn_ in enumerate(j["fields"]):
+                        for ow in (owner, j["adt"]):
+                            if (ow, fi, fn_) in fren:
+                                j["fields"][fi] = fren[(ow, fi, fn_)]
+                for v in j.values():
+                    walk(v)
+            elif isinstance(j, list):
+                for v in j:
+                    walk(v)
+        walk(facts["fns"])
+        report["fields"] = {"%s.%s" % (o, n): k for (o, _i, n), k in fren.items()}
+    return facts, report
+
+
 def _remap(j, off, boff):
     """shift every local index by off (in place) in a copied block"""
     if isinstance(j, dict):
@@ -58,7 +145,7 @@ def _shift_targets(t, boff):
         t["branches"] = [[v, b + boff] for v, b in t["branches"]]
 
 
-def inline_call(cf, b, g):
+def inline_call(cf, b, g, adts=None):
     """inline callee json g at the call terminating block b of caller json cf"""
     t = cf["blocks"][b]["term"]
     off = len(cf["locals"])
@@ -97,6 +184,109 @@ def inline_call(cf, b, g):
         cf["blocks"].append(nb)
     cf["blocks"][b]["term"] = {"k": "goto", "target": boff, "sp": t.get("sp", {}), "inlined_call": g["name"]}
     cf.setdefault("inlined", []).append(g["name"])
+    if dest is not None and target is not None:
+        _thread_returns(cf, off, boff, len(g["blocks"]), dest, target, adts or {})
+
+
+def _same_place(a, b):
+    return a["l"] == b["l"] and a.get("proj", []) == b.get("proj", [])
+
+
+def _known_value(stmts, local):
+    """value last assigned to `local` (no projection) by a simple statement: ('variant', adt, index) | ('const', v)"""
+    for s in reversed(stmts):
+        if s["k"] != "assign":
+            continue
+        p = s["p"]
+        if p["l"] != local:
+            continue
+        if p["proj"]:
+            return None
+        r = s["r"]
+        if r["k"] == "aggregate" and r.get("ak") == "adt" and r.get("variant") is not None:
+            return ("variant", r.get("adt"), r["variant"])
+        if r["k"] == "use" and r["a"].get("k") == "const" and "val" in r["a"]:
+            return ("const", r["a"]["val"])
+        return None
+    return None
+
+
+def _eval_switch(stmts, term, env, adts):
+    """mini constant propagation over the statements of a switch block; env: {local: value}.  Returns the successor the
+    switch takes, or None"""
+    env = dict(env)
+    for s in stmts:
+        if s["k"] != "assign":
+            continue
+        p, r = s["p"], s["r"]
+        val = None
+        if r["k"] == "use" and r["a"].get("k") in ("copy", "move") and not r["a"]["p"]["proj"]:
+            val = env.get(r["a"]["p"]["l"])
+        elif r["k"] == "use" and r["a"].get("k") == "const" and "val" in r["a"]:
+            val = ("const", r["a"]["val"])
+        elif r["k"] == "unop" and r.get("op") == "Not" and r["a"].get("k") in ("copy", "move") and not r["a"]["p"]["proj"]:
+            v = env.get(r["a"]["p"]["l"])
+            if v and v[0] == "const" and v[1] in (0, 1, True, False):
+                val = ("const", 0 if v[1] else 1)
+        elif r["k"] == "discr" and not r["p"]["proj"]:
+            v = env.get(r["p"]["l"])
+            if v and v[0] == "variant":
+                a = adts.get(v[1])
+                d = None
+                if a and v[2] < len(a["variants"]):
+                    d = a["variants"][v[2]].get("discr")
+                val = ("const", d if isinstance(d, int) else v[2])
+        if not p["proj"]:
+            if val is not None:
+                env[p["l"]] = val
+            else:
+                env.pop(p["l"], None)
+    if term["k"] != "switch":
+        return None
+    d = term["d"]
+    if d.get("k") == "const" and "val" in d:
+        v = ("const", d["val"])
+    elif "p" in d and not d["p"]["proj"]:
+        v = env.get(d["p"]["l"])
+    else:
+        v = None
+    if not v or v[0] != "const":
+        return None
+    x = int(v[1]) if isinstance(v[1], (bool, int)) else None
+    if x is None:
+        return None
+    for val, tgt in term["branches"]:
+        if val == x:
+            return tgt
+    return term["otherwise"]
+
+
+def _thread_returns(cf, off, boff, n, dest, target, adts):
+    """jump threading for the value an inlined helper returns: when a path through the helper ends by assigning a known
+    variant / constant to the return place and the caller immediately branches on it (`if helper(..)`, `if let Some(x) =
+    helper(..)`), that path is connected straight to the branch it takes — as it was before the block was extracted"""
+    if dest.get("proj"):
+        return
+    blocks = cf["blocks"]
+    T = blocks[target]
+    if T["term"]["k"] != "switch" or any(s["k"] == "assign" and s["r"]["k"] not in ("use", "unop", "discr", "ref") for s in T["stmts"]):
+        return
+    rets = [i for i in range(boff, boff + n) if any(s.get("inl_ret") for s in blocks[i]["stmts"]) and blocks[i]["term"].get("target") == target]
+    for R in rets:
+        preds = [i for i in range(boff, boff + n) if blocks[i]["term"]["k"] == "goto" and blocks[i]["term"]["target"] == R and i != R]
+        cands = [(R, blocks[R]["stmts"][:-1])] if _known_value(blocks[R]["stmts"][:-1], off) else [(pb, blocks[pb]["stmts"]) for pb in preds]
+        for (pb, stmts) in cands:
+            v = _known_value(stmts, off)
+            if v is None:
+                continue
+            nxt = _eval_switch(T["stmts"], T["term"], {dest["l"]: v}, adts)
+            if nxt is None:
+                continue
+            nb = {"stmts": ([] if pb == R else copy.deepcopy(blocks[R]["stmts"])) + copy.deepcopy(T["stmts"]),
+                  "term": {"k": "goto", "target": nxt, "sp": T["term"].get("sp", {}), "threaded": True}, "file": blocks[R].get("file")}
+            blocks.append(nb)
+            blocks[pb]["term"] = dict(blocks[pb]["term"])
+            blocks[pb]["term"]["target"] = len(blocks) - 1
 
 
 def flatten_facts(facts, known):
@@ -108,6 +298,7 @@ def flatten_facts(facts, known):
     for _round in range(MAX_ROUNDS):
         P = Program(facts)
         byname = {j["name"]: j for j in facts["fns"]}
+        adts_by_name = {a["name"]: a for a in facts["adts"]}
         unknown = {n for n, j in byname.items() if n not in known and not j.get("closure") and "::{closure" not in n and not P.fns[n].in_tests()}
         # closures of unknown functions travel with them; an unknown function in a known function's closure is handled like any other
         unknown = {n for n in unknown if not byname[n].get("nameable") and not byname[n].get("impl_trait")}
@@ -142,7 +333,7 @@ def flatten_facts(facts, known):
                 if not hit:
                     continue
                 if len(tg) == 1 and t.get("rkind") in ("item", "shim", None) and cf["name"] != tg[0]:
-                    inline_call(cf, b, byname[tg[0]])
+                    inline_call(cf, b, byname[tg[0]], adts_by_name)
                     report["inlined"].setdefault(tg[0], []).append(cf["name"])
                     progress = True
                 else:
@@ -164,8 +355,10 @@ def flatten_facts(facts, known):
 def flatten_program(facts):
     """Program over the normalised facts, with .raw = Program over the facts as extracted and .flatten_report"""
     known = load_known()
+    facts, ren = undo_renames(facts, load_known_full())
     raw = Program(facts)
     flat_facts, report = flatten_facts(facts, known)
+    report["renamed_back"] = ren
     if not report["inlined"]:
         P = raw
     else:
@@ -185,10 +378,20 @@ if __name__ == "__main__":
     if "--write-known" in sys.argv:
         from . import facts as F
         names = set()
+        sigs = {}
+        adts = {}
         for cfg in ("default", "no-default-features", "serde", "cfgtest"):
             fj, _meta = F.extract(cfg)
             names |= {j["name"] for j in fj["fns"] if not j.get("closure")}
-        json.dump({"_comment": "function paths of the tree the rules were written against (all build configurations); functions "
-                               "not listed here are inlined into their callers before the structural rules run (mdnsverif/flatten.py)",
-                   "functions": sorted(names)}, open(KNOWN, "w"), indent=0)
+            for j in fj["fns"]:
+                if not j.get("closure") and "::{closure" not in j["name"]:
+                    sigs[j["name"]] = _sig(j)
+            for a in fj["adts"]:
+                lay = [[v["name"], [[f["name"], f["ty"]] for f in v["fields"]]] for v in a["variants"]]
+                if lay not in adts.setdefault(a["name"], []):
+                    adts[a["name"]].append(lay)
+        json.dump({"_comment": "function paths (with signatures) and type layouts of the tree the rules were written against (all build "
+                               "configurations); functions not listed here are inlined into their callers, and mere renames are undone, before the "
+                               "structural rules run (mdnsverif/flatten.py)",
+                   "functions": sorted(names), "signatures": sigs, "adts": adts}, open(KNOWN, "w"), indent=0)
         print("wrote %d names" % len(names))
